@@ -21,6 +21,14 @@ a crash is a cut of that list at ANY position; `needsBuilding` is a function of 
   `C32_witness_fallback_stale_stamp` (the fallback record `.rule_hash_<out>` survives the replacement of its output:
   xattrs disabled, or a symlink output) and `C32_witness_dir_partial_remove` (a directory output keeps its xattr while
   `RemoveAll` empties it).
+* `C32_recover_repeated`: the same-tree statement for any number of kills in a row (each attempt starts from what the
+  previous one left), via `CurInv` — the part of the history invariant that survives crashes in every stamp mode.
+* `C32_fixed_crash_inv`, `C32_fixed_metadata_never_truncated`: the repair proposed in the findings (drop the stamp of
+  every declared output before anything destructive: `fixedOrder`) restores the history invariant at every cut in
+  every stamp mode and for directory outputs, and a truncated metadata file is never trusted.
+* `C32_interleaving`: build steps of different targets touch disjoint files, so any interleaving is a family of cuts.
+* `C32_needsBuilding_refines`, `C32_build_refines`: the filesystem-level test / build step refine `buildOne` of the
+  history model (Model/Build.lean) on `view`.
 * `C32_writeFile_atomic`: after every cut of fs.WriteFile the destination holds its old content or the complete new one.
 -/
 namespace PlzVerif.Props.C32
@@ -477,6 +485,40 @@ theorem C32_fixed_metadata_never_truncated (b : Params N C S H) (fs : TState N C
     · rw [(hall n hn).1] at h; simp at h
     · rw [hbs] at h; simp at h; rw [h]; exact hload
   simp [mdFails, hbs, hl]
+
+section HistoryFixed
+open PlzVerif.Build
+variable {K A F N' S' : Type} [DecidableEq K] [DecidableEq S'] [DecidableEq N']
+variable (fx : Facts) (mv : C → C → C) (exec : A → List (N' × C) → C) (ruleSer : A → S') (pathSer : C → H)
+
+/-- **With the repair, C32 ⇒ C01 after a crash in every stamp mode and for directory outputs**: the statement of
+    `C32_main_partial` without its two restrictions. -/
+theorem C32_fixed_main (hmv : MvOK pathSer mv) (hf : fx.cmpRule = true ∧ fx.cmpSource = true)
+    (hR : Function.Injective ruleSer) (hP : Function.Injective pathSer)
+    (g : K → TState N C (Stamp S' N' H)) (bs : K → Params N C (Stamp S' N' H) H) (n0 : K → N)
+    (hb : ∀ k, (bs k).outs = [n0 k] ∧ (bs k).hash = pathSer ∧
+      ∃ a ins, (bs k).stamp = stampOf ruleSer pathSer a ins ∧ (bs k).new (n0 k) = exec a ins)
+    (hinv : ∀ k n, SliceInv (GoodOut exec ruleSer pathSer) ((bs k).useFb n) ((g k).out n))
+    (cut : K → Nat) (r : Repo K A F N' C) (sel : K → Bool) (hwf : WFList sel [] r.targets) :
+    ∀ k ∈ selKeys sel r.targets, ∃ c st,
+      (build fx mv exec ruleSer pathSer r sel
+        (fun k => view (bs k) (applyOps (g k) ((planFixed (bs k) (g k)).take (cut k))) (n0 k))).1 k = some (c, st) ∧
+      (clean exec r sel).lookup k = some c := by
+  have hInv : Inv exec ruleSer pathSer
+      (fun k => view (bs k) (applyOps (g k) ((planFixed (bs k) (g k)).take (cut k))) (n0 k)) := by
+    intro k c st hv
+    obtain ⟨ho, hh, a, ins, hst, hnw⟩ := hb k
+    have hsl := C32_fixed_crash_inv (bs k) (fun _ => GoodOut exec ruleSer pathSer) (g k)
+      (by rw [ho]; simp) (by rw [hh]; exact hP)
+      (by intro n hn; rw [ho] at hn; simp at hn; subst hn; exact ⟨a, ins, hst, hnw⟩)
+      (hinv k) (cut k) (n0 k)
+    exact view_good (bs k) _ (n0 k) (GoodOut exec ruleSer pathSer) hsl c st hv
+  have h := buildList_spec fx mv exec ruleSer pathSer hmv hf hR hP r sel r.targets [] _ [] rfl hInv
+    (by intro k hk; simp at hk) hwf
+  intro k hk
+  exact h.2.2 k (by simpa using hk)
+
+end HistoryFixed
 
 open W in
 /-- the three witness scenarios under the repair: at no cut is a wrong output trusted, and no build fails -/
